@@ -329,12 +329,123 @@ func check(kind string, l []aa.Rule, quiet bool) bool {
 	return bad
 }
 
+// parsedMode: lists that come out of the PARSER (the way aa-log -r and aa --format obtain them), merged in place.
+// Rules built by the parser may share what struct literals never share (a cached access slice, a common backing array):
+// every ordered pair and triple of file rules over two paths and six access strings, and of signal rules over two peers;
+// the facts of the parsed list before Merge must equal the facts after it.
+func parsedMode() {
+	// every line together with the rule it states, built by hand (the expectation must not come out of the parser:
+	// what the parser shares between calls may already be damaged by an earlier merge)
+	lines := []string{}
+	stated := []aa.Rule{}
+	for _, p := range []string{"/a", "/b"} {
+		for _, a := range []string{"r", "w", "rw", "rwk", "m", "mr"} {
+			lines = append(lines, p+" "+a+",")
+			stated = append(stated, &aa.File{Path: p, Access: strings.Split(a, "")})
+		}
+	}
+	list := func(s string) []string { return strings.Fields(strings.Trim(s, "()")) }
+	for _, peer := range []string{"x", "y"} {
+		for _, a := range []string{"send", "receive", "(send receive)"} {
+			for _, set := range []string{"term", "(hup int term)", "kill"} {
+				lines = append(lines, "signal "+a+" set="+set+" peer="+peer+",")
+				stated = append(stated, &aa.Signal{Access: list(a), Set: list(set), Peer: peer})
+			}
+		}
+	}
+	n := 0
+	one := func(seq []int) {
+		text := ""
+		for _, i := range seq {
+			text += "  " + lines[i] + "\n"
+		}
+		n++
+		var l aa.Rules
+		perr := ""
+		func() {
+			defer func() {
+				if p := recover(); p != nil {
+					perr = fmt.Sprint(p)
+				}
+			}()
+			pr, _, err := aa.ParseRules(text + "\n")
+			if err != nil {
+				perr = err.Error()
+				return
+			}
+			l = pr.Flatten()
+		}()
+		in := strings.Split(strings.TrimSpace(text), "\n")
+		if perr != "" || len(l) != len(seq) {
+			report("parsed-list-not-parsed", "the list does not parse to its rules: "+perr, in)
+			return
+		}
+		ref := aa.Rules{}
+		for _, i := range seq {
+			ref = append(ref, universe.Clone(stated[i]))
+		}
+		want := denote(ref)
+		if parsed := denote(l); !eq(parsed, want) {
+			report("parsed-list-misread", fmt.Sprintf("the parser reads the list as %v, it states %v", parsed, want), in)
+			return
+		}
+		var merged aa.Rules
+		func() {
+			defer func() {
+				if p := recover(); p != nil {
+					perr = fmt.Sprint(p)
+				}
+			}()
+			merged = l.Merge()
+		}()
+		if perr != "" {
+			report("parsed-merge-panics", "Merge panics on a parsed list: "+perr, in)
+			return
+		}
+		if got := denote(merged); !eq(got, want) {
+			report(fmt.Sprintf("parsed-meaning-changed rules=%d", len(seq)), fmt.Sprintf("Merge of the parsed list changes its facts: before %v, after %v; merged to %v", want, got, texts(merged)), in)
+		}
+	}
+	for L := 2; L <= 3; L++ {
+		idx := make([]int, L)
+		var rec func(k int)
+		rec = func(k int) {
+			if k == L {
+				// only lists of one kind (file rules are the first 12 lines)
+				file := idx[0] < 12
+				for _, i := range idx {
+					if (i < 12) != file {
+						return
+					}
+				}
+				one(idx)
+				return
+			}
+			for i := range lines {
+				idx[k] = i
+				rec(k + 1)
+			}
+		}
+		rec(0)
+	}
+	vs := []*viol{}
+	for _, v := range viols {
+		vs = append(vs, v)
+	}
+	sort.Slice(vs, func(i, j int) bool { return vs[i].Sig < vs[j].Sig })
+	json.NewEncoder(os.Stdout).Encode(map[string]any{"kind": "parsed", "n": 0, "lists": n, "violations": vs})
+}
+
 func main() {
 	kind := flag.String("kind", "file", "")
 	tier := flag.Int("tier", 0, "")
 	emit := flag.Int("emit", 0, "print up to N pairs that Merge touched, with the model verdict")
 	flag.Parse()
 	collect = *emit > 0
+	if *kind == "parsed" {
+		parsedMode()
+		return
+	}
 	U := universe.Of(*kind, *tier)
 	if *kind == "mixed" {
 		U = universe.Mixed(*tier, 3)
